@@ -138,6 +138,7 @@ func runC09(r *Run) {
 	}
 	r.checkCurveTables(P)
 	r.checkLeftPad(P)
+	r.checkOKPLength(P)
 	// --- size
 	if f := r.fn(P, pkgIJWS, "verifyECSignature"); f != nil {
 		b, ok := r.requireSucc(P+".size.ec", "a truncated or extended ECDSA signature must be rejected", f, core.Ctx{}, "",
@@ -346,4 +347,67 @@ func (r *Run) checkLeftPad(P string) {
 		}
 	}
 	r.R.Check(ok && nNil == 0, id, rule, core.FuncName(f), r.where(f), why, det, det)
+}
+
+// checkOKPLength: the JOSE library pinned by the module builds an Ed25519
+// public key by copying the decoded x into a fixed 32-byte buffer without
+// looking at its length (derived from the library source). A longer x is
+// truncated — the genuine key followed by extra bytes verifies — and the
+// length test after the conversion can never fail. Under that premise the
+// JWK reader must reach the library only with kty ≠ "OKP" or len(x) = 32.
+func (r *Run) checkOKPLength(P string) {
+	f := r.fn(P, pkgIJWS, "JWK.UnmarshalJSON")
+	if f == nil {
+		return
+	}
+	why := "an Ed25519 JWK whose x is the genuine key followed by extra bytes (wrong coordinate length) is accepted and genuine signatures verify under it; a shorter x is zero-padded instead of rejected"
+	// premise
+	var ed *ssa.Function
+	for g := range r.P.AllFuncs {
+		if g.Name() == "edPublicKey" && g.Pkg != nil && strings.Contains(g.Pkg.Pkg.Path(), "go-jose") {
+			ed = g
+		}
+	}
+	if ed == nil || ed.Blocks == nil {
+		r.R.Unk(P+".jwk.okp.length", "library premise", "go-jose rawJSONWebKey.edPublicKey", "-", why, "the library's Ed25519 key constructor was not found: re-derive the premise")
+		return
+	}
+	copies, lens := 0, 0
+	for _, b := range ed.Blocks {
+		for _, ins := range b.Instrs {
+			if c, ok := ins.(*ssa.Call); ok {
+				if isBuiltin(c, "copy") {
+					copies++
+				}
+				if isBuiltin(c, "len") {
+					lens++
+				}
+			}
+		}
+	}
+	premise := copies > 0 && lens == 0
+	r.R.List("library premises (derived from the go-jose source)", fmt.Sprintf("edPublicKey copies x into a fixed-size buffer without testing its length: %v", premise))
+	id := P + ".jwk.okp.length"
+	rule := "sibling agreement (JWK reader ↔ JOSE library) + E8 never-before: the library's JWK decoder is reached only with kty ≠ \"OKP\" or len(decoded x) = 32"
+	if !premise {
+		r.R.Ok(id, "vacuous: the library checks the length of x itself", core.FuncName(f), r.where(f), why, "not needed")
+		return
+	}
+	ff := r.E.Facts(f, core.Ctx{})
+	n := 0
+	good := true
+	var det []string
+	for _, c := range r.callsIn(f, "json.Unmarshal") {
+		// the delegation to the library decodes into a jose.JSONWebKey
+		args := core.CallArgs(c.Common())
+		if len(args) != 2 || !strings.Contains(ff.TB.Of(args[1]).String(), "JSONWebKey") || strings.Contains(ff.TB.Of(args[1]).String(), "jsonWebKey") {
+			continue
+		}
+		n++
+		if r.reachableWithout(ff, c, []string{`cmp(_.Kty != "OKP")`, "cmp(len(_.X.data) == 32)"}) {
+			good = false
+			det = append(det, r.P.Pos(c.Pos())+": the library decoder is reachable with kty = OKP and an unchecked length of x")
+		}
+	}
+	r.R.Check(good && n == 1, id, rule, core.FuncName(f), r.where(f), why, "guarded", strings.Join(det, "; ")+fmt.Sprintf(" (%d delegations found)", n))
 }
